@@ -68,6 +68,8 @@ pub fn run_case(ctx: &mut Ctx, case: &Value, c09: bool) {
     let mut rng = Rng::fork(ctx.seed ^ 0xC05, crate::report::hash_of(&case["tree"]));
     let kbkey = holder_kb_key();
     let mut kb_alg = rsa_algs()[rng.below(6)].clone();
+    // when the issuer signed with an RSA algorithm, the holder uses the same one every other time
+    if keys::family(&ic.alg) == 1 && rng.chance(1, 2) { kb_alg = ic.alg.clone(); }
     let sets = gen_redactions(&mut rng, &ic, false);
     let r = sets[rng.below(sets.len())].clone();
     // The bound JWK of the fixtures says "alg":"RS256" while the key-binding algorithm ranges over RS/PS
@@ -296,7 +298,10 @@ pub fn run(ctx: &mut Ctx, replay: Option<&Value>, c09: bool) {
     for i in 0..n {
         let mut rng = Rng::fork(ctx.seed, i);
         let kb_pct = if c09 { 100 } else { 85 };
-        let case = if i % 3 == 2 { gen_ref_case(&mut rng, false, kb_pct) } else { gen_own_case(&mut rng, false, i, false, kb_pct) };
+        let mut case = if i % 3 == 2 { gen_ref_case(&mut rng, false, kb_pct) } else { gen_own_case(&mut rng, false, i, false, kb_pct) };
+        // one token in five is signed by the issuer with an RSA algorithm - the family key-binding JWTs are signed
+        // in: a verifier that falls back on the ISSUER's policy for the key binding must not get away with it
+        if i % 5 == 1 { case["alg"] = json!(keys::alg_name(&rsa_algs()[(i / 5) as usize % 6])); }
         run_case(ctx, &case, c09);
     }
 }
